@@ -1,5 +1,6 @@
 import Wal.Model.Wire
 import Wal.Model.Reader
+import Wal.Model.Wawk
 /-!
 # `walmodel`: line-protocol driver around the executable model
 
@@ -107,6 +108,17 @@ def step (st : St) (toks : List String) : St × String :=
       (match walStrCode e with
         | some s => (st, "ok " ++ hexOfString s)
         | Option.none => (st, "unsup"))
+    | _ => (st, "bad-request")
+  | "wawkemit" :: rest =>
+    match parseSx rest with
+    | some (.list _ stmts, []) =>
+      let prog := stmts.filterMap (fun s => match s with
+        | .list _ [.list _ conds, action] => some ({ conds := conds, action := action } : Wawk.Stmt)
+        | _ => Option.none)
+      if prog.length != stmts.length then (st, "bad-request") else
+      (match Wawk.emit prog with
+        | some forms => (st, "ok " ++ showSx st.arr? (.list false forms))
+        | Option.none => (st, "err"))
     | _ => (st, "bad-request")
   | ["normvar", h] =>
     match unhex h with
